@@ -31,7 +31,8 @@ def plan(tier, seed):
 
 
 CLEAN = ['types', 'smi_tc', 'defval', 'defval_zero', 'split_imports']
-STRESS = ['defval_bits', 'defval_oid', 'defval_empty_string', 'defval_bin_octets', 'defval_empty_hex']
+STRESS = ['defval_bits', 'defval_oid', 'defval_empty_string', 'defval_bin_octets', 'defval_empty_hex',
+          'defval_hostile_string']
 
 
 def make_set(rng, tier, stress=False):
